@@ -61,7 +61,7 @@ def run_inline(item):
         for p, s in files.items():
             with open(os.path.join(root, p), "w") as f:
                 f.write(s)
-        out0, exc0 = runpy.run_entry(root, "n.py")
+        out0, exc0 = pc.run_entry(root, "n.py")
         want0 = pc.inline_expected(kind, sig, beh["b0"], dims, sites)
         if exc0 or pc.parse_print_lines(out0) != want0:
             return {"machinery": "rendered program does not print the spec's bindings: exc=%s\n%s\nwant %s\n%s" % (
@@ -117,7 +117,7 @@ def judge_inline(res, beh, kind, dims, after, root):
     # behaviour: every inlined site shows the binding of its own call; the others still call
     pairs = [beh["shown"][k] if k in targets else beh["b0"][k] for k in range(len(sites))]
     want = pc.inline_expected(kind, sig, pairs, dims, sites)
-    out1, exc1 = runpy.run_entry(root, "n.py")
+    out1, exc1 = pc.run_entry(root, "n.py")
     got = pc.parse_print_lines(out1)
     if exc1 or got != want:
         detail["exc_after"] = exc1
